@@ -2,10 +2,12 @@ package main
 
 import (
 	"bytes"
+	"context"
 	"fmt"
 	"math/rand"
 	"reflect"
 	"strings"
+	"sync/atomic"
 	"time"
 
 	theine "github.com/Yiling-J/theine-go"
@@ -365,10 +367,145 @@ type c11Val struct {
 	Blob []byte
 }
 
+// c11Kinds: the same round trip through the public SaveCache / LoadCache of each cache kind (plain, loading, hybrid,
+// hybrid-loading), which all share one store but are built and wired separately: entries (unit and mixed costs,
+// with and without deadlines) are stored within capacity, saved, and loaded into a new cache of the same kind and
+// size; every key must then be found in memory with its value and cost - without the loader running and without a
+// trip to the secondary store -, entries whose deadline passed between save and load must be gone, and the loaded
+// cache must satisfy the quiescent invariant.
+func c11Kinds(r *Run, idx int) {
+	rng := r.Rng(int64(11900 + idx))
+	kind := anyKinds[idx%len(anyKinds)]
+	M := []int64{50, 300, 2000}[rng.Intn(3)]
+	var loads atomic.Int64
+	mk := func() (*anyCache, error) {
+		return newAnyCache(kind, anyOpts{MaxSize: M, Loader: func(ctx context.Context, k int) (theine.Loaded[int64], error) {
+			loads.Add(1)
+			return theine.Loaded[int64]{Value: -int64(k) - 1, Cost: 1}, nil
+		}})
+	}
+	src, err := mk()
+	if err != nil {
+		r.Broken("build: %v", err)
+		return
+	}
+	defer src.store().Close()
+	type want struct {
+		val, cost int64
+		short     bool
+	}
+	wants := map[int]want{}
+	var total int64
+	for k := 0; total < M*8/10; k++ {
+		w := want{val: int64(k)<<8 | int64(rng.Intn(256)), cost: int64(1 + rng.Intn(3))}
+		var ttl time.Duration
+		switch rng.Intn(3) {
+		case 1:
+			ttl, w.short = time.Duration(20+rng.Intn(30))*time.Second, true
+		case 2:
+			ttl = time.Duration(2+rng.Intn(48)) * time.Hour
+		}
+		if !src.set(k, w.val, w.cost, ttl) {
+			continue
+		}
+		wants[k] = w
+		total += w.cost
+	}
+	src.wait()
+	src.store().VerifShiftClock(90*time.Second, true) // the short deadlines pass between save and load
+	var buf bytes.Buffer
+	if err := src.save(5, &buf); err != nil {
+		r.Violate("savecache-failed/"+kind, fmt.Sprintf("kinds round %d: SaveCache returned %v", idx, err), map[string]any{"cache": kind})
+		return
+	}
+	dst, err := mk()
+	if err != nil {
+		r.Broken("build: %v", err)
+		return
+	}
+	defer dst.store().Close()
+	if err := dst.load(5, &buf); err != nil {
+		r.Violate("loadcache-failed/"+kind, fmt.Sprintf("kinds round %d: LoadCache of an undamaged stream returned %v", idx, err), map[string]any{"cache": kind})
+		return
+	}
+	dst.wait()
+	fail := func(key, what string) {
+		r.Violate(key+"/"+kind, fmt.Sprintf("kinds round %d (%s cache, MaxSize %d, %d entries saved): %s", idx, kind, M, len(wants), what), map[string]any{"cache": kind, "maxsize": M})
+	}
+	sn := dst.store().VerifSnapshot()
+	byKey := map[int]internal.VerifEntry[int, int64]{}
+	for _, e := range sn.Map {
+		byKey[e.Key] = e
+	}
+	missing, wrong, undead := 0, 0, 0
+	var first string
+	for k, w := range wants {
+		e, ok := byKey[k]
+		switch {
+		case w.short && ok:
+			undead++
+		case !w.short && !ok:
+			missing++
+			if first == "" {
+				first = fmt.Sprintf("key %d (value %#x, cost %d) was saved unexpired and is not in the loaded cache", k, w.val, w.cost)
+			}
+		case !w.short && (e.Value != w.val || e.Weight != w.cost):
+			wrong++
+			if first == "" {
+				first = fmt.Sprintf("key %d saved as (value %#x, cost %d), loaded as (value %#x, cost %d)", k, w.val, w.cost, e.Value, e.Weight)
+			}
+		}
+	}
+	if missing > 0 {
+		fail("unexpired-entries-not-restored", fmt.Sprintf("%d unexpired entries are missing after the load (first: %s)", missing, first))
+	}
+	if wrong > 0 {
+		fail("restored-entry-differs", fmt.Sprintf("%d entries came back with another value or cost (first: %s)", wrong, first))
+	}
+	if undead > 0 {
+		fail("expired-entry-restored", fmt.Sprintf("%d entries whose deadline had passed 40-70 s before the save were restored", undead))
+	}
+	for _, is := range checkQuiescent(sn, dst.store().EstimatedSize(), true) {
+		fail("loaded-cache-inconsistent/"+is.Key, is.What)
+	}
+	// through the public read path: found in memory, no loader run, no trip to the secondary store
+	l0 := loads.Load()
+	var g0 int64
+	if dst.sec != nil {
+		g0 = dst.sec.gets.Load()
+	}
+	bad := 0
+	for k, w := range wants {
+		if w.short {
+			continue
+		}
+		if v, ok, err := dst.get(context.Background(), k); err != nil || !ok || v != w.val {
+			bad++
+		}
+	}
+	dl := loads.Load() - l0
+	var dg int64
+	if dst.sec != nil {
+		dg = dst.sec.gets.Load() - g0
+	}
+	if missing == 0 && wrong == 0 && (bad > 0 || dl > 0 || dg > 0) {
+		fail("restored-entry-not-served-from-memory", fmt.Sprintf("%d restored keys were not answered with their value by Get; the loader ran %d times and the secondary store was asked %d times (want 0, 0, 0)", bad, dl, dg))
+	}
+	r.Eval(1)
+	r.Count("kinds_round_trips", 1)
+	r.Distinct(fmt.Sprintf("kinds/%s/M%d", kind, M))
+}
+
 func runC11(r *Run) {
 	r.Rule("case = one round trip: a cache filled by a generated workload (uniform / recency-biased / frequency-biased / alternating phases, so the adaptive window-protected split moves), saved with the real SaveCache after d of virtual time, loaded with the real LoadCache into a cache of the same / larger / smaller MaxSize, regions compared element by element. Non-trivial = every round trip; distinct by (types, split moved, cost mix, TTL mix, target ratio, elapsed class)")
 	r.Assume("virtual time between save and load = the saver's clock origin moved back just before saving (the loader adopts it)",
 		"a round in which a maintenance tick changed the saved cache between the reference snapshot and the save is discarded as inconclusive")
+	nk := r.Pick(24, 480)
+	for i := 0; i < nk; i++ {
+		if i%r.NShards == r.Shard {
+			c11Kinds(r, i)
+		}
+	}
 	n := r.Pick(64, 2400)
 	for i := 0; i < n; i++ {
 		if i%r.NShards != r.Shard {
